@@ -8,7 +8,9 @@ import (
 	"fmt"
 	"io"
 	"net"
+	"os"
 	"runtime/debug"
+	"strconv"
 	"sync"
 	"time"
 
@@ -26,6 +28,7 @@ func (memAddr) String() string  { return "mem" }
 
 type memConn struct {
 	name string
+	tok  verifrt.Tok // tracking epoch of the instance this connection belongs to
 	mu   sync.Mutex
 	cond *sync.Cond
 	in   [][]byte // pending segments (one per Read)
@@ -47,13 +50,13 @@ func (c *memConn) Read(b []byte) (int, error) {
 	for len(c.in) == 0 && !c.closed {
 		if !c.readerParked {
 			c.readerParked = true
-			verifrt.Park()
+			verifrt.Park(c.tok)
 		}
 		c.cond.Wait()
 	}
 	if c.readerParked { // woken by close
 		c.readerParked = false
-		verifrt.Unpark()
+		verifrt.Unpark(c.tok)
 	}
 	if len(c.in) == 0 {
 		return 0, io.EOF
@@ -76,7 +79,7 @@ func (c *memConn) Supply(seg []byte) {
 	c.in = append(c.in, append([]byte(nil), seg...))
 	if c.readerParked {
 		c.readerParked = false
-		verifrt.Unpark()
+		verifrt.Unpark(c.tok)
 	}
 	c.cond.Broadcast()
 	c.mu.Unlock()
@@ -148,6 +151,7 @@ type Instance struct {
 	dead    bool   // a panic or hang happened; the instance must not be used any more
 	deadWhy string
 	panics  []string
+	leaked  int // goroutines of this instance found blocked for ever in a channel send
 	cmu     sync.Mutex
 }
 
@@ -213,9 +217,10 @@ func (in *Instance) openConn() int {
 	in.conns = append(in.conns, c)
 	var nc net.Conn = c
 	in.netc = append(in.netc, &nc)
-	verifrt.TrackBegin()
+	tok := verifrt.TrackBegin()
+	c.tok = tok
 	go func() {
-		defer verifrt.TrackEnd()
+		defer verifrt.TrackEnd(tok)
 		defer func() {
 			if r := recover(); r != nil {
 				in.cmu.Lock()
@@ -228,18 +233,29 @@ func (in *Instance) openConn() int {
 	return len(in.conns) - 1
 }
 
-var hangTimeout = 20 * time.Second
+var hangTimeout = func() time.Duration {
+	if v := os.Getenv("VERIF_HANG_S"); v != "" {
+		if n, err := strconv.Atoi(v); err == nil && n > 0 {
+			return time.Duration(n) * time.Second
+		}
+	}
+	return 20 * time.Second
+}()
 
 // Quiesce waits for the instance to go idle.  Returns false on a hang.
 func (in *Instance) Quiesce() bool {
-	done := make(chan struct{})
-	go func() { verifrt.Quiesce(); close(done) }()
-	select {
-	case <-done:
-	case <-time.After(hangTimeout):
+	t0 := time.Now()
+	ok, leaked := verifrt.QuiesceTimeout(hangTimeout, 30*time.Millisecond)
+	if d := time.Since(t0); d > 5*time.Millisecond && os.Getenv("VERIF_SLOWQ") != "" {
+		fmt.Fprintf(os.Stderr, "slow quiesce %v leaked=%d ok=%v\n", d, leaked, ok)
+	}
+	if !ok {
 		in.dead = true
 		in.deadWhy = "hang"
 		return false
+	}
+	if leaked > in.leaked {
+		in.leaked = leaked
 	}
 	for _, p := range verifrt.BgPanics() {
 		in.panics = append(in.panics, "bg: "+p)
@@ -308,9 +324,9 @@ func (in *Instance) Call(f func() error) (err error, panicked string, hang bool)
 		return nil, "instance dead: " + in.deadWhy, false
 	}
 	var mu sync.Mutex
-	verifrt.TrackBegin()
+	tok := verifrt.TrackBegin()
 	go func() {
-		defer verifrt.TrackEnd()
+		defer verifrt.TrackEnd(tok)
 		defer func() {
 			if p := recover(); p != nil {
 				mu.Lock()
